@@ -37,14 +37,17 @@ theorem C12_executing_sandbox (slots : SlotMap) (is : List Inv) : nests [] (runI
   C19.C19_bracketed slots is
 
 /-- After any history of registrations and unregistrations (C13 invariant), the function behind an
-occupied entry point is one that a live owner object holds -- and only such functions are reachable. -/
+occupied entry point is one that an owner object holds through a registration made in the sandbox's
+current incarnation -- and only such functions are reachable. -/
 theorem C12_dispatch_after_history (w : World) (hi : C13.Inv w) (i k f : Nat) (hk : k < w.max)
-    (h : (w.sbx i).slots k = some f) : ∃ o, w.owners o = some (i, f) :=
-  (hi.keysOwned i f).1 ((hi.keysSlots i f).2 ⟨k, hk, h⟩)
+    (h : (w.sbx i).slots k = some f) : ∃ o, C13.holdsLive w o i f :=
+  have hkeys := (hi.keysSlots i f).2 ⟨k, hk, h⟩
+  let ⟨o, ho⟩ := (hi.keysOwned i f).1 hkeys
+  ⟨o, ho, hi.keysCreated i f hkeys⟩
 
-theorem C12_owned_is_reachable (w : World) (hi : C13.Inv w) (i o f : Nat) (h : w.owners o = some (i, f)) :
+theorem C12_owned_is_reachable (w : World) (hi : C13.Inv w) (i o f : Nat) (h : C13.holdsLive w o i f) :
     ∃ k, k < w.max ∧ (w.sbx i).slots k = some f :=
-  (hi.keysSlots i f).1 ((hi.keysOwned i f).2 ⟨o, h⟩)
+  (hi.keysSlots i f).1 ((hi.keysOwned i f).2 ⟨o, h.1⟩)
 
 /-- Source fact regenerated on every run: the thread-local record of both bundled backends is declared
 `thread_local`.  (The dylib backend's callback machinery is no longer compared textually with the noop
